@@ -51,10 +51,11 @@ def hcb (n : Nat) (args : List Nat) : Nat :=
   args.foldl (fun acc a => (acc * 31 + a) % modP) ((n + 1) % modP)
 
 /-- callback with fault injection: raise at total invocation number `failAt`, or at a node of `failNodes` -/
-def cb (failAt : Option Nat) (failNodes : List Nat) (k n : Nat) (args : List Nat) : Except Nat Nat :=
-  if failAt == some k then .error n
-  else if failNodes.contains n then .error n
-  else .ok (hcb n args)
+def cb (failAt : Option Nat) (failNodes : List Nat) (tr : List Nat) (n : Nat) (args : List Nat) : Except Nat Nat :=
+  match failAt with
+  | some k => if tr.length == k then .error n
+              else if failNodes.contains n then .error n else .ok (hcb n args)
+  | none => if failNodes.contains n then .error n else .ok (hcb n args)
 
 structure Req where
   ch : Array (List Nat)
